@@ -389,6 +389,7 @@ var roomVersionMeta = map[RoomVersion]IRoomVersion{
 		checkRestrictedJoin:                    checkRestrictedJoin,
 		parsePowerLevelsFunc:                   parsePowerLevels,
 		checkKnockingAllowedFunc:               checkKnocking,
+		checkRestrictedJoinAllowedFunc:         allowRestrictedJoins,
 		checkCreateEvent:                       checkCreateEventV1,
 		newEventFromUntrustedJSONFunc:          newEventFromUntrustedJSONV2,
 		newEventFromTrustedJSONFunc:            newEventFromTrustedJSONV2,
